@@ -696,6 +696,22 @@ func (c *ExprCtx) call(x CCall) TV {
 			n.idx = len(c.stepLoop.phis)
 			n.st = c.stepLoop.headState
 			return n.expr(x.Args[0])
+		case "prevheap":
+			// prevheap(x) in a loop step clause: x evaluated in the memory state at the start of
+			// the iteration, with the local variables of the current point (e.g. the entry a map
+			// had for THIS iteration's key before the iteration ran)
+			if c.stepLoop == nil {
+				c.fail("prevheap() is only meaningful in a loop step clause")
+			}
+			n := *c
+			mixed := c.stepLoop.headState.clone()
+			for k, v := range c.st.m {
+				if strings.HasPrefix(k, "c:") {
+					mixed.m[k] = v
+				}
+			}
+			n.st = mixed
+			return n.expr(x.Args[0])
 		case "implies":
 			return TV{V: Imp(c.boolExpr(x.Args[0]), c.boolExpr(x.Args[1])), Typ: types.Typ[types.Bool]}
 		case "iff":
